@@ -10,7 +10,7 @@ from .common import Ctx, InfraError, run_check
 from . import sysprop
 from . import engine_b as eb
 
-PROFILE = {"fail": 0.0, "cancel": True, "cancel_p": 0.2, "deps": True, "multi_shutdown": True, "mid_shutdown": True,
+PROFILE = {"array_p": 0.4, "fail": 0.0, "cancel": True, "cancel_p": 0.2, "deps": True, "multi_shutdown": True, "mid_shutdown": True,
            "mid_shutdown_p": 0.12, "gate_p": 0.4, "block_res_p": 0.03, "no_final_shutdown_p": 0.15, "timeout": 15}
 
 CORPUS = [
@@ -32,6 +32,16 @@ CORPUS = [
      "script": [{"c": "submit"}, {"c": "submit"}, {"c": "shutdown", "wait": False, "cancel": False}],
      "gates": [], "perturb": {}, "seed": 3, "timeout": 15, "settle": 6},
 ]
+
+CORPUS.append(
+    # two parked calls of one function whose positional arguments cannot be compared (numpy arrays), the later one ready first
+    {"executor": {"backend": "local", "block_allocation": True, "max_workers": 2, "disable_dependencies": False},
+     "calls": [{"base": 1, "gate": 0, "args": [], "kwargs": {}}, {"base": 10, "gate": 1, "args": [], "kwargs": {}},
+               {"base": 100, "args": [{"a": [1, 2, 3]}, {"f": 0}], "kwargs": {}}, {"base": 1000, "args": [{"a": [4, 5, 6]}, {"f": 1}], "kwargs": {}},
+               {"base": 10000, "args": [{"a": [7, 8, 9]}, {"f": 3}], "kwargs": {}}],
+     "script": [{"c": "submit"}, {"c": "submit"}, {"c": "submit"}, {"c": "submit"}, {"c": "submit"}, {"c": "sleep", "ms": 40},
+                {"c": "release", "g": 1}, {"c": "await", "i": 3}, {"c": "release", "g": 0}, {"c": "shutdown", "wait": True, "cancel": False}],
+     "gates": [0, 1], "perturb": {}, "seed": 4, "timeout": 15, "settle": 6})
 
 REQUIRED = ["sdDrainGet", "sdDrainCancel", "sdPutStop", "sdJoinThread", "sdJoinQueue", "sdFinish", "rBeginSd", "rScanFwd",
             "wProcStop", "wJoinExit", "dJoinThread", "dJoinExit", "mCancel", "mAwait", "rDecidePark"]
@@ -70,19 +80,28 @@ def invariants_on_traces(ctx: Ctx, prop: str, profile: dict, n: int):
 
 def body(ctx: Ctx):
     if ctx.replay_file:
+        import json
+        payload = json.load(open(ctx.replay_file))
+        if "exit_scenario" in payload:
+            from . import exit_check
+            return exit_check.replay(ctx, "C02", payload)
         return sysprop.replay(ctx, "C02", ctx.replay_file)
     n = 100 if ctx.tier == "quick" else 1000
     res = sysprop.campaign(ctx, "C02", PROFILE, n, CORPUS, REQUIRED)
     checked, stuck = invariants_on_traces(ctx, "C02", PROFILE, 40 if ctx.tier == "quick" else 400)
     ctx.oblige("executable invariants (liveInvList) hold in every state of %d replayed traces; %d of them end in a state with nothing "
                "enabled, all accepted futures done, script finished" % (checked, stuck), True)
+    from . import exit_check
+    res["script_exit_scenarios"] = exit_check.decide(ctx, "C02", 12 if ctx.tier == "quick" else 80)
     res["invariant_traces"] = checked
     res["stuck_end_states"] = stuck
     res["rule"] = ("engine B: programs of 1-6 independent and dependent calls (no failing call: the property's hypothesis), user scripts "
                    "interleaving submit, cancel, await, sleep and shutdown(wait, cancel_futures) in all four combinations anywhere and "
                    "repeatedly, 15% ending without shutdown(wait=True) (drop), block executors with 1-3 workers and per-call executors, "
                    "resolver on/off, seeded schedule perturbation; oracles: every future done when shutdown(wait=True) returned, "
-                   "every future done eventually, no hang; non-trivial = >= 2 calls or >= 3 script commands")
+                   "every future done eventually, no hang; non-trivial = >= 2 calls or >= 3 script commands; plus script-exit scenarios (a child "
+                   "interpreter whose user script ends while calls are running or queued after shutdown(wait=False) / del / nothing): "
+                   "every submitted call completes")
     res["trusted_base_extra"] = sysprop.TRUST
     return res
 
